@@ -311,7 +311,11 @@ CommitIndexOf(s, n) ==
 \* an earlier term is dropped; the weakening restores the code's former behaviour (no check
 \* that the reply belongs to the current leadership stint)
 OnAEReply(s, n, p, m, r) ==
-  IF p \notin MembersOf(s) \/ s.role # "L" THEN s
+  \* (weakening RemovedReplyHonoured, after seeded change C16c: the term of a reply is looked at
+  \* before the membership of its sender)
+  IF "RemovedReplyHonoured" \in W /\ p \notin MembersOf(s) /\ s.role = "L" /\ r.term > s.term
+    THEN BecomeFollower(s, r.term, "aer")
+  ELSE IF p \notin MembersOf(s) \/ s.role # "L" THEN s
   ELSE IF m.term # s.term /\ "NoStaleAEReplyCheck" \notin W THEN s
   ELSE IF r.term > s.term THEN BecomeFollower(s, r.term, "aer")
   ELSE IF ~r.ok THEN [s EXCEPT !.next[p] = r.hint]
